@@ -415,7 +415,7 @@ inline GFile gen_file(Src &s, const GOpts &o) {
       PLine l;
       l.kind = L_HEADER;
       std::string name;
-      if (!secpool.empty() && s.chance(35))
+      if (!secpool.empty() && s.chance(50))
         name = s.pick(secpool);
       else {
         name = gen_text(s, a_sec, gen_len(s, 1, o.long_fields));
@@ -475,7 +475,7 @@ inline GFile gen_file(Src &s, const GOpts &o) {
       prev_entryish = true;
     }
   }
-  f.final_nl = f.lines.empty() ? true : !s.chance(15);
+  f.final_nl = f.lines.empty() ? true : !s.chance(20);
   return f;
 }
 
